@@ -277,6 +277,16 @@ func (c *Conn) closeNoNotify(t xmlstream.Encoder) error {
 
 	c.handler.rmStream(c.stanzaWriter.sid)
 
+	// A Write or Flush that is waiting for the acknowledgement of its packet
+	// owns the write buffer and the encoder behind it, and only the goroutine
+	// we are running on can deliver that acknowledgement: do not touch them
+	// (and do not wait for them) in that case.
+	if !c.writeLock.TryLock() {
+		c.closeRead()
+		return nil
+	}
+	defer c.writeLock.Unlock()
+
 	// Flush any remaining data to be written.
 	err := c.flush(t)
 	if err != nil {
